@@ -488,6 +488,40 @@ fn commutation(rep: &mut Report) {
         probe(acc, "Mat3::from_quat([&q,&p,&p].product()) = from_quat(q)*from_quat(p)*from_quat(p)", &R::M3(Mat3::from_quat([q, p, p].iter().product::<Quat>())), &R::M3([Mat3::from_quat(q), Mat3::from_quat(p), Mat3::from_quat(p)].iter().product::<Mat3>()), 64.0, &ctx);
         probe(acc, "Mat4::from_mat3([&A,&B,&B].product()) = product of from_mat3", &R::M4(Mat4::from_mat3([Mat3::from_quat(q), Mat3::from_quat(p), Mat3::from_quat(p)].iter().product::<Mat3>())), &R::M4([Mat4::from_quat(q), Mat4::from_quat(p), Mat4::from_quat(p)].iter().product::<Mat4>()), 64.0, &ctx);
         probe(acc, "DMat4::from([&da,&db,&db].product()) = DMat4 product", &R::DM4(DMat4::from([a.as_daffine3(), b.as_daffine3(), b.as_daffine3()].iter().product::<DAffine3>())), &R::DM4(DMat4::from(a.as_daffine3()) * DMat4::from(b.as_daffine3()) * DMat4::from(b.as_daffine3())), 128.0, &ctx);
+        // an affine value times a *general* 4x4 (a projection: last row not (0,0,0,1)) is the plain matrix
+        // product, entry by entry; the same for 3x3 with a non-affine last row
+        {
+            let pm = Mat4::perspective_rh(1.1, 1.6, 0.1, 50.0) * Mat4::from_cols_array(&[1.0, 0.5, 0.0, 0.25, 0.0, 1.0, 0.5, -0.5, 0.25, 0.0, 1.0, 0.125, 1.0, -2.0, 3.0, 1.5]);
+            let ent = |site: &str, g: Mat4, w: Mat4, acc: &mut Acc| {
+                let (g, w) = (g.to_cols_array(), w.to_cols_array());
+                let sc = w.iter().fold(0.0f64, |m, x| m.max(x.abs() as f64));
+                for k in 0..16 { env(acc, site, g[k] as f64, w[k] as f64, 64.0 * EPS32 * sc, &ctx); }
+            };
+            ent("Affine3A * Mat4(projection) = Mat4::from(Affine3A) * Mat4", a * pm, Mat4::from(a) * pm, acc);
+            ent("Mat4(projection) * Affine3A = Mat4 * Mat4::from(Affine3A)", pm * a, pm * Mat4::from(a), acc);
+            let p3 = Mat3::from_cols_array(&[1.0, 0.5, 0.25, -0.5, 1.5, -0.125, 2.0, -1.0, 0.75]);
+            let e3 = |site: &str, g: Mat3, w: Mat3, acc: &mut Acc| {
+                let (g, w) = (g.to_cols_array(), w.to_cols_array());
+                let sc = w.iter().fold(0.0f64, |m, x| m.max(x.abs() as f64));
+                for k in 0..9 { env(acc, site, g[k] as f64, w[k] as f64, 64.0 * EPS32 * sc, &ctx); }
+            };
+            e3("Affine2 * Mat3(general) = Mat3::from(Affine2) * Mat3", a2 * p3, Mat3::from(a2) * p3, acc);
+            e3("Mat3(general) * Affine2 = Mat3 * Mat3::from(Affine2)", p3 * a2, p3 * Mat3::from(a2), acc);
+            e3("Mat3A(general) * Affine2", Mat3::from(Mat3A::from(p3) * a2), p3 * Mat3::from(a2), acc);
+            e3("Affine2 * Mat3A(general)", Mat3::from(a2 * Mat3A::from(p3)), Mat3::from(a2) * p3, acc);
+        }
+        // the assign form of composition converts like `*`, in every affine type
+        {
+            let (mut t3, mut t2) = (a, a2);
+            t3 *= b; t2 *= b2;
+            let (da, db, da2, db2) = (a.as_daffine3(), b.as_daffine3(), DAffine2::from_cols_array(&a2.to_cols_array().map(|x| x as f64)), DAffine2::from_cols_array(&b2.to_cols_array().map(|x| x as f64)));
+            let (mut dt3, mut dt2) = (da, da2);
+            dt3 *= db; dt2 *= db2;
+            probe(acc, "Mat4::from(a *= b) = Mat4::from(a) * Mat4::from(b)", &R::M4(Mat4::from(t3)), &R::M4(Mat4::from(a) * Mat4::from(b)), 64.0, &ctx);
+            probe(acc, "Mat3::from(a2 *= b2) = Mat3::from(a2) * Mat3::from(b2)", &R::H3(Mat3::from(t2)), &R::H3(Mat3::from(a2) * Mat3::from(b2)), 64.0, &ctx);
+            probe(acc, "DMat4::from(da *= db) = DMat4::from(da) * DMat4::from(db)", &R::DM4(DMat4::from(dt3)), &R::DM4(DMat4::from(da) * DMat4::from(db)), 64.0, &ctx);
+            probe(acc, "DMat3::from(da2 *= db2) = DMat3::from(da2) * DMat3::from(db2)", &R::DH3(DMat3::from(dt2)), &R::DH3(DMat3::from(da2) * DMat3::from(db2)), 64.0, &ctx);
+        }
         // f64 counterparts commute with the casts
         probe(acc, "(a*b).as_daffine3 = a.as_daffine3*b.as_daffine3", &R::DA3((a * b).as_daffine3()), &R::DA3(a.as_daffine3() * b.as_daffine3()), 64.0, &ctx);
         probe(acc, "(q*p).as_dquat = q.as_dquat*p.as_dquat", &R::DQ((q * p).as_dquat()), &R::DQ(q.as_dquat() * p.as_dquat()), 32.0, &ctx);
